@@ -16,3 +16,140 @@ def setup():
         return 1
     print("setup ok")
     return 0
+
+
+# ----------------------------------------------------------------------------------------------
+# C09 (coordinate clauses) through engine E2
+# ----------------------------------------------------------------------------------------------
+import json, struct, time
+from fractions import Fraction
+from . import e2 as X
+from . import engine as E
+
+
+def _c09(scratch, tier):
+    from . import runner
+    t0 = time.time()
+    res = {"queries": [], "samples": [], "discharged": 0, "nontrivial": 0, "violations": [], "inconclusive": [],
+           "assumptions": [
+               "E2: IEEE-754 binary64 rounding-error lemma: every FP multiplication/division result r of normal operands satisfies |r - exact| <= 2^-53 |exact| (trusted, not solved)",
+               "E2: deku's i32 reader/writer are opaque: only the arithmetic between the f64 and the i32 is encoded, the byte layout is not",
+               "E2: z3 5.1.0 (z3-new; 4.8.12 does not terminate on the linear mixed integer/real lemma queries) and cvc5 1.0 must agree on every query",
+           ]}
+    cap = 60 if tier == "quick" else 600
+    try:
+        mir = X.dump_mir(scratch)
+        enc, dec = X.extract(mir)
+    except X.E2Error as e:
+        res["inconclusive"].append(f"E2: {e}")
+        return res
+    res["samples"].append({"enc(x)": X.show(enc), "dec(v)": X.show(dec), "from": "nightly MIR dump of /repo's working tree"})
+    # translator validation: the repository's own unit-test vectors
+    vectors = [(-180.0, -1800000000), (180.0, 1800000000), (0.0, 0), (-85.0, -850000000)]
+    for deg, stored in vectors:
+        if X.ev(enc, deg) != stored or abs(X.ev(dec, stored) - deg) > 2.3e-16 * max(1.0, abs(deg)):
+            res["inconclusive"].append(f"E2: translator validation failed on the repo's test vector {deg} <-> {stored}: enc={X.ev(enc, deg)} dec={X.ev(dec, stored)}")
+            return res
+    res["queries"].append({"harness": "E2.validate", "status": "hold", "bounds": "4 unit-test vectors of src/header/lat_lng.rs pushed through the extracted expression trees"})
+
+    spec_by_fn = {s.fn: s for s in E.all_specs()}
+
+    def confirm(kind, value_json, what):
+        spec = spec_by_fn["r9_a_roundtrip" if kind == "a" else "r9_b_nearest"]
+        rp = runner.replay_values(scratch, spec, value_json)
+        reproduced = [p for p, (v, _) in rp.items() if v == "reproduced"]
+        if reproduced:
+            os.makedirs(runner.REPLAYS, exist_ok=True)
+            rpath = os.path.join(runner.REPLAYS, f"C09_{spec.fn}.json")
+            json.dump({"property": "C09", "harness": spec.id, "fn": spec.fn, "file": spec.file, "values": value_json, "native": {k: list(v) for k, v in rp.items()}, "what": what}, open(rpath, "w"), indent=1)
+            res["violations"].append((rpath, f"{what}; native replay: {rp[reproduced[0]][1]} [{','.join(reproduced)}]"))
+        else:
+            res["inconclusive"].append(f"E2: candidate did not reproduce against the real functions: {what} {rp}")
+
+    # ---- (a) for every stored i32 v: enc(dec(v)) == v ----------------------------------------
+    R = X.RealEnc()
+    d = R.term(dec, "v", True)
+    # enc over the real value d: substitute input by the term d
+    class Sub(X.RealEnc):
+        pass
+    e_term = R.term(_subst(enc, ("rawterm", d)), "v", True) if False else _real_of(R, enc, d)
+    text = "(set-logic ALL)\n(define-fun eps () Real (/ 1.0 9007199254740992.0))\n(declare-const v Int)\n" + "\n".join(R.decls) + \
+           "\n(assert (and (>= v (- 2147483648)) (<= v 2147483647)))\n" + "\n".join(f"(assert {a})" for a in R.asserts) + \
+           f"\n(assert (not (= {e_term} (to_real v))))\n"
+    rz, rc = X.both(text, cap)
+    q = {"harness": "E2.a-lemma", "bounds": "every stored coordinate v in i32 (all 2^32 values), reals + rounding-error lemma", "z3": rz[0], "cvc5": rc[0],
+         "solver_s": round(rz[2] + rc[2], 2), "functions": ["LatLng::read_lat_lon", "LatLng::write_lat_lon"]}
+    res["queries"].append(q)
+    if rz[0] == "unsat" and rc[0] == "unsat":
+        q["status"] = "hold"
+        res["discharged"] += 1
+        res["nontrivial"] += 1
+    else:
+        q["status"] = "candidate"
+        # find a concrete counterexample bit-precisely (and by the solver's own model), confirm natively
+        cands = []
+        for r in (rz, rc):
+            if r[0] == "sat":
+                mv = X.model_int(r[1], "v")
+                if mv is not None:
+                    cands.append(mv)
+        fp = "(set-logic ALL)\n(declare-const v (_ BitVec 32))\n" + f"(assert (not (= {X.smt_fp(enc, X.smt_fp(dec, 'v'))} v)))\n(check-sat)\n(get-model)\n"
+        rz2 = X.run_solver(["/usr/bin/z3", "-in", f"-T:{cap}"], fp, cap + 5)
+        res["queries"].append({"harness": "E2.a-bitprecise", "bounds": "all 2^32 stored values, FloatingPoint(11,53)", "z3": rz2[0], "solver_s": round(rz2[2], 2), "status": "search"})
+        if rz2[0] == "sat":
+            mv = X.model_int(rz2[1], "v")
+            if mv is not None:
+                cands.insert(0, mv)
+        hit = [v for v in cands if X.ev(enc, X.ev(dec, v)) != v]
+        if hit:
+            v = hit[0]
+            confirm("a", [{"type": "i32", "value": str(v & 0xffffffff)}], f"stored coordinate {v} is read as {X.ev(dec, v)!r} and re-encoded as {X.ev(enc, X.ev(dec, v))}")
+        else:
+            res["inconclusive"].append(f"E2.a: solvers did not prove the round trip (z3={rz[0]}, cvc5={rc[0]}) and no confirmed counterexample was found")
+
+    # ---- (b) for every x in [-180, 180]: |enc(x) - x*1e7| <= 0.5 + 1e-6 ------------------------
+    R2 = X.RealEnc()
+    e2t = R2.term(enc, "x", False)
+    text = "(set-logic ALL)\n(define-fun eps () Real (/ 1.0 9007199254740992.0))\n(declare-const x Real)\n" + "\n".join(R2.decls) + \
+           "\n(assert (and (>= x (- 180.0)) (<= x 180.0)))\n" + "\n".join(f"(assert {a})" for a in R2.asserts) + \
+           f"\n(define-fun dlt () Real (- {e2t} (* x 10000000.0)))\n(assert (or (> dlt 0.500001) (< dlt (- 0.500001))))\n"
+    rz, rc = X.both(text, cap)
+    q = {"harness": "E2.b-lemma", "bounds": "every real x in [-180, 180] (superset of the f64 inputs), tolerance 0.5 + 1e-6, reals + rounding-error lemma", "z3": rz[0], "cvc5": rc[0],
+         "solver_s": round(rz[2] + rc[2], 2), "functions": ["LatLng::write_lat_lon"]}
+    res["queries"].append(q)
+    if rz[0] == "unsat" and rc[0] == "unsat":
+        q["status"] = "hold"
+        res["discharged"] += 1
+        res["nontrivial"] += 1
+    else:
+        q["status"] = "candidate"
+        # candidate search natively around half-steps (the solver's real-valued model need not be a double)
+        hit = None
+        for k in (0, 1, 2, 7, 21, 123456789, 1799999999, -1, -21, -1799999999):
+            for off in (0.4, 0.49, 0.5, 0.51, 0.6, 0.9):
+                x = (k + (off if k >= 0 else -off)) / 1e7
+                if -180.0 <= x <= 180.0 and abs(X.ev(enc, x) - x * 1e7) > 0.500001:
+                    hit = x
+                    break
+            if hit is not None:
+                break
+        if hit is not None:
+            bits = struct.unpack(">Q", struct.pack(">d", hit))[0]
+            confirm("b", [{"type": "u64", "value": str(bits)}], f"{hit!r} degrees is stored as {X.ev(enc, hit)} but {hit * 1e7!r} is nearer to another multiple of 1e-7")
+        else:
+            res["inconclusive"].append(f"E2.b: solvers did not prove nearest-rounding (z3={rz[0]}, cvc5={rc[0]}) and no confirmed counterexample was found")
+    for qq in res["queries"]:
+        res["samples"].append({"obligation": qq["harness"], "bounds": qq.get("bounds"), "verdict": qq.get("status"), "z3": qq.get("z3"), "cvc5": qq.get("cvc5")})
+    return res
+
+
+def _real_of(R, tree, inner_term):
+    """encode `tree` over reals where the input leaf is the already-encoded real term `inner_term`"""
+    return R.term(tree, inner_term, False)
+
+
+def _subst(t, x):
+    return t
+
+
+E2["C09"] = _c09
